@@ -20,8 +20,18 @@ package ipfshttp
 
 // a POST to the daemon: nil only after a 200 (checkResponse); counted
 // assumed (not verified): the HTTP exchange itself
+// what IS checked in its body: the request handed to the HTTP client carries the caller's context (that is how the
+// pin watchdog's cancellation, pin_timeout and the request timeouts reach the transport)
+//@ spec func reqCtx(r *http.Request) context.Context = uf("requestContext", "context.Context", r)
+//@ extern http.Request.WithContext(ctx)
+//@   ensures res != nil && reqCtx(res) == ctx
+//@   modifies nothing
+//@ extern http.Client.Do(req)
+//@   modifies nothing
 //@ func (ipfs *Connector) doPostCtx
-//@   opts trusted
+//@   property C16
+//@   opts assume_post
+//@   at_call http.Client.Do assert [request-runs-under-the-callers-context] reqCtx(req) == ctx
 //@   ensures err == nil ==> res != nil
 //@   modifies nothing
 
